@@ -147,7 +147,10 @@ AfterOk(p, tok) ==
     [] k = "Operate3" /\ pc = "rb" -> L("rc3", NewSh(p, 2, l.i, tok), Join(p, 2, l.i, l.v, tok), <<>>)
     [] k = "Operate3" /\ pc = "rc3" -> L("send", 0, Join(p, 3, l.i, l.v, tok), <<>>)
     [] k \in {"Operate", "Operate3"} /\ pc \in {"da", "db", "dc3"} -> l
-    [] k = "XmaCore" /\ pc = "seed" -> L("send0", 0, tok, <<>>)
+    [] k = "XmaCore" /\ pc = "seed" ->
+          IF Par2[p] = 1                                                \* variant: the goroutine sums the seed values itself
+          THEN L("seed", l.i + 1, IF l.i = 0 THEN tok ELSE Comb(l.v, tok), <<>>)   \* (reads the seed channel until it is closed)
+          ELSE L("send0", 0, tok, <<>>)
     [] k = "XmaCore" /\ pc = "xrecv" -> L("send", 0, tok, <<>>)
     [] k = "KamaCore" /\ pc = "first" -> L("rc", 0, tok, <<>>)
     [] k = "KamaCore" /\ pc = "rc" -> L("rsc", 0, Comb(l.v, tok), <<>>)
@@ -186,7 +189,8 @@ AfterClosed(p) ==
     [] k = "Operate3" /\ pc = "dc3" ->
           IF Op3Concurrent THEN L("done", 0, NoTok, <<>>) ELSE L("close", 0, NoTok, <<>>)
     [] k = "XmaCore" /\ pc = "seed" ->                                 \* no seed: return (fix 2ac43f9);
-          IF SeedChecked THEN L("close", 0, NoTok, <<>>)                \* before it: ok ignored, a zero was sent
+          IF Par2[p] = 1 /\ l.i >= Par[p] THEN L("send0", 0, l.v, <<>>)  \* variant: all P seed values read, the seed is their mean
+          ELSE IF SeedChecked THEN L("close", 0, NoTok, <<>>)           \* before it: ok ignored, a zero was sent
                          ELSE L("send0", 0, ZeroTok, <<>>)
     [] k = "KamaCore" /\ pc \in {"first", "rc"} -> L("dc", 0, NoTok, <<>>)
     [] k = "KamaCore" /\ pc = "rsc" -> L("send", 0, l.v, <<>>)          \* ok is not checked by the code
